@@ -233,6 +233,27 @@ _fl = z3.Const("_fl", LForm.sort)
 TH.axiom([_fl], f_andl(_fl), M(f_andl(_fl)) == MAll(_fl, LForm.len(_fl)), "M.andl")
 TH.axiom([_fl], f_orl(_fl), M(f_orl(_fl)) == MAny(_fl, LForm.len(_fl)), "M.orl")
 
+# membership in an integer list, as a defined predicate with a witness function
+mem_Int = z3.Function("mem_Int", LInt.sort, Int, Bool)
+memw_Int = z3.Function("memw_Int", LInt.sort, Int, Int)
+_mk = z3.Const("_mem_keys", LInt.sort)
+_mi, _mx = z3.Ints("_mem_i _mem_x")
+TH.axiom(
+    [_mk, _mx],
+    mem_Int(_mk, _mx),
+    z3.Implies(
+        mem_Int(_mk, _mx),
+        z3.And(0 <= memw_Int(_mk, _mx), memw_Int(_mk, _mx) < LInt.len(_mk), LInt.at(_mk, memw_Int(_mk, _mx)) == _mx),
+    ),
+    "mem.elim",
+)
+TH.axiom(
+    [_mk, _mx, _mi],
+    [mem_Int(_mk, _mx), LInt.at(_mk, _mi)],
+    z3.Implies(z3.And(0 <= _mi, _mi < LInt.len(_mk), LInt.at(_mk, _mi) == _mx), mem_Int(_mk, _mx)),
+    "mem.intro",
+)
+
 # dict.values(): the list of values in key order
 _values_of: dict = {}
 
